@@ -16,6 +16,7 @@ the Datalog semantics of C01). Every run
       `bounds_sound_partial` (exactness flag).
 """
 import glob
+import itertools
 import json
 import os
 
@@ -516,6 +517,291 @@ def f7_shaped(prog):
     outside the sound fragment of C12 (findings F7b, F7c, F7f)."""
     k = kinds_of(prog)
     return any(x in k for x in ("map", "struct", "tagged"))
+
+
+# =============================================================================
+# Shapes added after seeding (notes/C11.md, "strengthened after seeding")
+#
+#  inferred  - UNDECLARED intermediate predicates: the relation type of q is inferred from
+#              its clauses (BoundsAnalyzer.inferRelTypes / getOrInferRelTypes, recursion through
+#              `visiting`): base clause(s) and recursive clause(s) in every order, linear /
+#              reversed / two-step / mutual recursion, unit clauses, a step relation with several
+#              bound rows forming a chain t0 -> t1 -> .. -> tL of pairwise disjoint types, an
+#              undeclared copy, and a DECLARED consumer admitting the types reachable up to a
+#              chosen depth (all of them = sound program; fewer = must be rejected).
+#  refine    - a variable bound by an earlier premise with a wide type (/any, no bounds, a union,
+#              /name, a prefix), then a premise with several bound rows that refine it differently
+#              (addOrRefine on sibling inference states), a head that admits one row's type (any
+#              position), all of them, all but one, or the wide type; rows in random order.
+#
+# Both avoid the triggers of the known findings by construction: only leaf types that are
+# pairwise disjoint or ordered by conformance meet (never two types with common members neither
+# of which conforms to the other), no modes, no maps/structs.  The verdict is the property's:
+# accepted => every stored fact of a declared predicate passes CheckTypeBounds.
+S_UNIV = [T.cnum(1), T.cnum(2), T.cstr("s"), T.cstr("t"), T.cname("/a/x"), T.cname("/a/b/c"), T.cname("/b/c"),
+          T.cname("/c/d"), T.cname("/x"), T.clist([T.cnum(1)])]
+S_DISJ = [T.NUMBER, T.STRING, T.tc("/a"), T.tc("/b"), T.tc("/c"), T.tlist(T.NUMBER)]      # pairwise disjoint
+S_TEXT = {json.dumps(T.NUMBER): T.cnum(1), json.dumps(T.STRING): T.cstr("s"), json.dumps(T.tc("/a")): T.cname("/a/x"),
+          json.dumps(T.tc("/b")): T.cname("/b/c"), json.dumps(T.tc("/c")): T.cname("/c/d"),
+          json.dumps(T.tlist(T.NUMBER)): T.clist([T.cnum(1)])}
+V = lambda i: ["var", i]
+
+
+def s_leaf_leq(a, b):
+    if a == b or b == T.ANY:
+        return True
+    if a[0] == "c" and b[0] == "c" and a[1].startswith("/") and a[1] not in T.BASE:
+        return b == T.NAME or (b[1] not in T.BASE and a[1].startswith(b[1] + "/"))
+    return False
+
+
+def s_leq(a, b):
+    """conformance on the types the two templates use (leaves of S_DISJ, /name, /a/b, /any, unions)"""
+    return all(any(s_leaf_leq(x, y) for y in flat(b)) for x in flat(a))
+
+
+def s_meet(a, b):
+    """a /\ b on template types: one of the two (they are ordered) or None (disjoint)"""
+    if s_leq(a, b):
+        return a
+    if s_leq(b, a):
+        return b
+    return None
+
+
+def univ_pre(decls, names):
+    pre = []
+    for p in names:
+        for tup in itertools.product(S_UNIV, repeat=decls[p]["arity"]):
+            pre.append([p, list(tup)])
+    return pre
+
+
+def rows_for(types, as_union):
+    types = T.dedup(types)
+    if as_union and len(types) > 1 and all(t[0] != "union" for t in types):
+        return [[T.tunion(types)]]
+    return [[t] for t in types]
+
+
+def mk_inferred(chain, srows, split, base_forms, rec_form, order, copy, admitted, as_union, cons_form, ids,
+                filt=None, extra_base=None):
+    """One program of the `inferred` family.  chain: types t0..tL; srows: rows of the step relation
+    (already ordered, each [from, to]); split: None or the index at which the rows are divided over two
+    step relations; base_forms: subset of {"atom","unit"}; rec_form: qs | sq | qss | mutual; order:
+    permutation (list of indices) of q's clauses; copy: consumer reads an undeclared copy of q;
+    admitted: the types the consumer's declaration admits; cons_form: copy | filter | neg."""
+    nm = lambda i: "p%d" % ids[i]
+    b, s, s2, q, w, m, r, f = (nm(i) for i in range(8))
+    decls = {b: {"arity": 1, "rows": [[chain[0]]] + ([[extra_base]] if extra_base is not None else [])}}
+    steps = [(s, srows)] if split is None else [(s, srows[:split]), (s2, srows[split:])]
+    for name, rows in steps:
+        decls[name] = {"arity": 2, "rows": rows}
+    qrules, other, init = [], [], []
+    if "atom" in base_forms:
+        qrules.append({"head": [q, [V(0)]], "body": [["atom", b, [V(0)]]]})
+    if "unit" in base_forms:
+        init.append([q, [S_TEXT[json.dumps(chain[0])]]])
+    for name, _ in steps:
+        if rec_form == "qs":
+            qrules.append({"head": [q, [V(0)]], "body": [["atom", q, [V(1)]], ["atom", name, [V(1), V(0)]]]})
+        elif rec_form == "sq":
+            qrules.append({"head": [q, [V(0)]], "body": [["atom", name, [V(1), V(0)]], ["atom", q, [V(1)]]]})
+        elif rec_form == "qss":
+            qrules.append({"head": [q, [V(0)]], "body": [["atom", q, [V(1)]], ["atom", name, [V(1), V(0)]]]})
+            qrules.append({"head": [q, [V(0)]], "body": [["atom", q, [V(1)]], ["atom", name, [V(1), V(2)]],
+                                                          ["atom", name, [V(2), V(0)]]]})
+        else:
+            qrules.append({"head": [q, [V(0)]], "body": [["atom", w, [V(0)]]]})
+            other.append({"head": [w, [V(0)]], "body": [["atom", q, [V(1)]], ["atom", name, [V(1), V(0)]]]})
+    qrules = [qrules[i] for i in order if i < len(qrules)]
+    src = q
+    undecl = {q: 1}
+    if rec_form == "mutual":
+        undecl[w] = 1
+    if copy:
+        other.append({"head": [m, [V(0)]], "body": [["atom", q, [V(0)]]]})
+        src = m
+        undecl[m] = 1
+    decls[r] = {"arity": 1, "rows": rows_for(admitted, as_union)}
+    if cons_form == "filter":
+        decls[f] = {"arity": 1, "rows": [[t] for t in filt]}
+        cons = {"head": [r, [V(0)]], "body": [["atom", src, [V(0)]], ["atom", f, [V(0)]]]}
+    elif cons_form == "neg":
+        decls[f] = {"arity": 1, "rows": [[t] for t in filt]}
+        cons = {"head": [r, [V(0)]], "body": [["atom", f, [V(0)]], ["neg", src, [V(0)]]]}
+    else:
+        cons = {"head": [r, [V(0)]], "body": [["atom", src, [V(0)]]]}
+    edb = [p for p in decls if p != r]
+    return {"decls": decls, "rules": qrules + other + [cons], "init": init, "pre": univ_pre(decls, edb),
+            "undecl": undecl}
+
+
+def gen_inferred(rng):
+    L = rng.choice([2, 2, 3, 3, 4])
+    chain = rng.sample(S_DISJ, L + 1)
+    srows = [[chain[i], chain[i + 1]] for i in range(L)]
+    rest = [t for t in S_DISJ if t not in chain]
+    if rest and rng.random() < 0.3:
+        srows.append([rng.choice(rest), rng.choice(S_DISJ)])         # a row the recursion never reaches
+    if rng.random() < 0.15:
+        srows.append([chain[L], chain[0]])                          # the chain closes
+    rng.shuffle(srows)
+    split = rng.randrange(1, len(srows)) if rng.random() < 0.25 else None
+    base_forms = rng.choice([["atom"], ["atom"], ["atom"], ["unit"], ["atom", "unit"]])
+    rec_form = rng.choice(["qs", "qs", "sq", "qss", "mutual"])
+    order = list(range(6))
+    rng.shuffle(order)
+    r = rng.random()
+    if r < 0.35:
+        d = L
+    elif r < 0.62:
+        d = 1
+    elif r < 0.72:
+        d = 0
+    else:
+        d = rng.randrange(0, L + 1)
+    admitted = chain[:d + 1]
+    if rng.random() < 0.08:
+        admitted = [T.ANY]
+    if rng.random() < 0.15:
+        admitted = admitted + [rng.choice(S_DISJ)]
+    cons_form = rng.choice(["copy", "copy", "copy", "filter", "neg"])
+    filt = rng.sample(S_DISJ, rng.choice([1, 2, 3])) if cons_form != "copy" else None
+    if cons_form == "filter" and rng.random() < 0.6:
+        filt = T.dedup(filt + admitted[:1])
+    extra_base = rng.choice(chain[1:]) if rng.random() < 0.12 else None
+    ids = rng.sample(range(40), 8)
+    prog = mk_inferred(chain, srows, split, base_forms, rec_form, order, rng.random() < 0.25, admitted,
+                       rng.random() < 0.3, cons_form, ids, filt, extra_base)
+    prog["stream"] = "inferred"
+    return prog
+
+
+def wide_sets(kind, rng):
+    """the wide type W of the binder and the column types that conform to it (le), that it conforms to
+    (ge), and that are disjoint from it; at most one union below W (two could overlap partially)"""
+    if kind in ("any", "nobounds"):
+        return T.ANY, S_DISJ + [T.NAME, T.tc("/a/b"), T.tunion([T.NUMBER, T.STRING])], [T.ANY], []
+    if kind == "name":
+        return T.NAME, [T.tc("/a"), T.tc("/b"), T.tc("/c"), T.tc("/a/b")], [T.ANY, T.tunion([T.NAME, T.NUMBER])], \
+            [T.NUMBER, T.STRING, T.tlist(T.NUMBER)]
+    if kind == "prefix":
+        return T.tc("/a"), [T.tc("/a/b")], [T.NAME, T.ANY, T.tunion([T.tc("/a"), T.NUMBER])], \
+            [T.tc("/b"), T.tc("/c"), T.NUMBER, T.STRING]
+    ts = rng.sample(S_DISJ, rng.choice([2, 3, 3, 4]))
+    le = list(ts) + ([T.tc("/a/b")] if T.tc("/a") in ts else [])
+    if len(ts) >= 3:
+        le.append(T.tunion(rng.sample(ts, 2)))
+    rest = [t for t in S_DISJ if t not in ts]
+    return T.tunion(ts), le, [T.ANY] + ([T.tunion(ts + [rest[0]])] if rest else []), rest
+
+
+def mk_refine(wides, mrows_list, head_rows, ids, nobounds=False, filler=None, via_copy=False, head_perm=None):
+    """wides: the binder's row (one wide type per variable); mrows_list: for each refining premise its
+    bound rows (one column per variable, plus optional trailing columns bound to fresh variables);
+    head_rows: declared rows of the head (over the binder's variables)."""
+    nm = lambda i: "p%d" % ids[i]
+    a, h, n, w = nm(0), nm(1), nm(2), nm(3)
+    nv = len(wides)
+    decls = {a: {"arity": nv, "rows": [] if nobounds else [list(wides)]}}
+    body = [["atom", a, [V(i) for i in range(nv)]]]
+    rules, undecl = [], {}
+    if via_copy:
+        rules.append({"head": [w, [V(i) for i in range(nv)]], "body": body})
+        body = [["atom", w, [V(i) for i in range(nv)]]]
+        undecl[w] = nv
+    if filler == "ineq":
+        body.append(["ineq", V(0), ["c", T.cnum(1)]])
+    elif filler == "neg":
+        decls[n] = {"arity": 1, "rows": [[T.ANY]]}
+        body.append(["neg", n, [V(0)]])
+    fresh = nv
+    for k, (mrows, pos) in enumerate(mrows_list):
+        name = nm(4 + k)
+        ar = len(mrows[0])
+        decls[name] = {"arity": ar, "rows": mrows}
+        args = [None] * ar
+        for i in range(nv):
+            args[pos[i]] = V(i)
+        for j in range(ar):
+            if args[j] is None:
+                args[j] = V(fresh)
+                fresh += 1
+        body.append(["atom", name, args])
+    hp = head_perm or list(range(nv))
+    decls[h] = {"arity": nv, "rows": [[row[i] for i in hp] for row in head_rows]}
+    rules.append({"head": [h, [V(i) for i in hp]], "body": body})
+    edb = [p for p in decls if p != h]
+    return {"decls": decls, "rules": rules, "init": [], "pre": univ_pre(decls, edb), "undecl": undecl}
+
+
+def gen_refine(rng):
+    nv = 1 if rng.random() < 0.7 else 2
+    kinds = [rng.choice(["any", "any", "nobounds", "union", "union", "name", "prefix"]) for _ in range(nv)]
+    if "nobounds" in kinds:
+        kinds = ["nobounds"] * nv
+    sets = [wide_sets(k, rng) for k in kinds]
+    wides = [s[0] for s in sets]
+    nref = 1 if nv == 2 or rng.random() < 0.75 else 2
+    mrows_list, states = [], [list(wides)]
+    for _ in range(nref):
+        rows, refined = [], []
+        for _ in range(rng.choice([2, 2, 3, 3, 4])):
+            direction = rng.choice(["le", "le", "le", "ge"])
+            row = []
+            for i in range(nv):
+                W, le, ge, dis = sets[i]
+                row.append(rng.choice(le) if direction == "le" and rng.random() < 0.85 else
+                           (rng.choice(ge) if direction == "ge" and rng.random() < 0.7 else W))
+            if rng.random() < 0.15:
+                i = rng.randrange(nv)
+                if sets[i][3]:
+                    row[i] = rng.choice(sets[i][3])          # an infeasible row
+            rows.append(row)
+        rows = T.dedup(rows)
+        # columns in the premise: the variables, optionally an extra fresh column
+        extra = rng.random() < 0.25
+        ar = nv + (1 if extra else 0)
+        pos = rng.sample(range(ar), nv)
+        full = []
+        for row in rows:
+            cols = [None] * ar
+            for i in range(nv):
+                cols[pos[i]] = row[i]
+            full.append([c if c is not None else rng.choice(S_DISJ) for c in cols])
+        mrows_list.append((full, pos))
+        nxt = []
+        for st in states:
+            for row in rows:
+                met = [s_meet(st[i], row[i]) for i in range(nv)]
+                if all(x is not None for x in met):
+                    nxt.append(met)
+        states = nxt
+    finals = T.dedup(states)
+    r = rng.random()
+    if not finals:
+        head_rows = [list(wides)]
+    elif r < 0.45:
+        head_rows = [rng.choice(finals)]
+    elif r < 0.75:
+        head_rows = list(finals)
+        rng.shuffle(head_rows)
+    elif r < 0.85 and len(finals) > 1:
+        head_rows = list(finals)
+        head_rows.pop(rng.randrange(len(head_rows)))
+    elif r < 0.95:
+        head_rows = [list(wides)]
+    else:
+        head_rows = [[T.ANY] * nv]
+    if nv == 1 and len(head_rows) > 1 and rng.random() < 0.25 and all(x[0][0] != "union" for x in head_rows):
+        head_rows = [[T.tunion([x[0] for x in head_rows])]]
+    hp = list(range(nv))
+    rng.shuffle(hp)
+    prog = mk_refine(wides, mrows_list, head_rows, rng.sample(range(40), 8), nobounds="nobounds" in kinds,
+                     filler=rng.choice([None, None, None, "ineq", "neg"]), via_copy=rng.random() < 0.15, head_perm=hp)
+    prog["stream"] = "refine"
+    return prog
 
 
 # --------------------------------------------------------------------- probes
